@@ -10,6 +10,29 @@ type propSpec struct {
 	requiredProbes []string
 	assumptions    []string
 	scenarios      []string // worker scenarios that feed this property's checker (default: the property id)
+	real, stub     []string // components (default: the whole-client list)
+}
+
+var defaultReal = []string{"go-dcp (whole client through dcp.Start): dcp.go stream/* couchbase/{observer,rollback_mitigation,client,metadata,doc_op,async_op,healthcheck}.go metadata/* membership/* api metric helpers wrapper models config",
+	"github.com/couchbase/gocbcore/v10 v10.5.2 (dial hooks only)", "github.com/asaskevich/EventBus (mutexes made durable)", "concurrent-swiss-map (Range order from the seed), errgroup, prometheus client, fiber (in-memory requests)"}
+
+var defaultStub = []string{"Couchbase Server (simulated cluster: KV, sub-document, DCP producer, failover table, OBSERVE_SEQNO, collections, CCCP, mgmt ping endpoint)", "HTTP /pools discovery (version/bucket info are scenario parameters)",
+	"TCP (in-memory pipes)", "clock (synctest bubble)", "disk for the file backend (simulated, with crash seams and write errors)", "the consumer (simulated: immediate / deferred / committing)", "Go runtime: select order, map iteration, time slice owned by the simulator; collector off",
+	"sonic JSON codec runs in its encoding/json fallback under go1.26"}
+
+var componentOverrides = map[string][2][]string{
+	"C10": {
+		{"couchbase/membership.go (cbMembership: register, heart-beat, monitor, CAS index rewrite) over the real couchbase client wrappers and gocbcore", "servicediscovery/service_discovery.go + model.go (heart-beat loop, monitor loop, SetInfo filter)", "kubernetes/ha_membership.go, membership/membership.go", "EventBus"},
+		{"Couchbase Server (simulated cluster)", "servicediscovery RPC client and server (simulated Client acting on the peer's ServiceDiscovery the way rpc_server.go's Handler does)", "Kubernetes lease election (simulated; runs the three callbacks of stream/leader_election.go)", "whole Dcp objects are not started in this scenario", "clock, TCP, Go runtime coins as everywhere"},
+	},
+	"C19": {
+		{"couchbase/healthcheck.go (NewHealthCheck, Start, Stop, run, performHealthCheck)"},
+		{"couchbase.Client (scripted Ping: succeed / fail / slow, decided by the seed)", "clock (synctest bubble)", "Go runtime select order (seeded)"},
+	},
+	"C20": {
+		{"couchbase/doc_op.go, async_op.go, client.go (Ping, GetFailOverLogs, OpenStream, CloseStream, GetVBucketSeqNos, GetCollectionIDs), metadata.go (Save, Load, Clear), observer.go", "github.com/couchbase/gocbcore/v10 v10.5.2 (dial hooks only)"},
+		{"Couchbase Server (simulated cluster; per-request scripted behaviour: prompt, error status, reply 1 ms before / after the deadline, silence, connection drop; mgmt HTTP endpoint for the second half of Ping)", "whole Dcp objects are not started in this scenario", "clock, TCP, Go runtime coins as everywhere"},
+	},
 }
 
 func propOfScenario(sc string) string {
